@@ -233,4 +233,86 @@ theorem sge_spec (w a b : Nat) (hw : 0 < w) (ha : a < 2 ^ w) (hb : b < 2 ^ w) :
     sge w a b = BitVec.sle (BitVec.ofNat w b) (BitVec.ofNat w a) := by
   simp [sge, BitVec.sle, signed_eq_toInt w _ hw ha, signed_eq_toInt w _ hw hb]
 
+/-- floor and truncating division agree when the quotient is non-negative -/
+theorem fdiv_eq_tdiv_of_mul_nonneg (x b : Int) (h : 0 ≤ x * b) (hb : b ≠ 0) : Int.fdiv x b = Int.tdiv x b := by
+  by_cases hb0 : 0 < b
+  · have hx : 0 ≤ x := by
+      rcases (by omega : x < 0 ∨ 0 ≤ x) with hx | hx
+      · have : x * b < 0 := Int.mul_neg_of_neg_of_pos hx hb0
+        omega
+      · exact hx
+    exact Int.fdiv_eq_tdiv_of_nonneg hx (by omega)
+  · have hbneg : b < 0 := by omega
+    have hx : x ≤ 0 := by
+      rcases (by omega : 0 < x ∨ x ≤ 0) with hx | hx
+      · have : x * b < 0 := Int.mul_neg_of_pos_of_neg hx hbneg
+        omega
+      · exact hx
+    have := Int.fdiv_eq_tdiv_of_nonneg (a := -x) (b := -b) (by omega) (by omega)
+    rwa [Int.neg_fdiv_neg, Int.neg_tdiv_neg] at this
+
+/-- the case split of bv.py's SDiv computes truncating division -/
+theorem sdivCore_eq_tdiv (a b : Int) (hb : b ≠ 0) : sdivCore a b = Int.tdiv a b := by
+  unfold sdivCore pyDiv pyMod
+  split
+  · rename_i h
+    exact fdiv_eq_tdiv_of_mul_nonneg a b (by omega) hb
+  · rename_i h
+    -- -a = r + q * b  with  r = fmod (-a) b, q = fdiv (-a) b
+    have hdecomp := Int.fmod_add_fdiv_mul (-a) b
+    have e : a + Int.fmod (-a) b = (-(Int.fdiv (-a) b)) * b := by
+      have : Int.fmod (-a) b = -a - Int.fdiv (-a) b * b := by omega
+      rw [this, Int.neg_mul]; omega
+    rw [e, Int.mul_fdiv_cancel _ hb]
+    have hq : Int.fdiv (-a) b = Int.tdiv (-a) b :=
+      fdiv_eq_tdiv_of_mul_nonneg (-a) b (by rw [Int.neg_mul]; omega) hb
+    rw [hq, Int.neg_tdiv]; omega
+
+theorem smtSDiv_eq_sdiv_of_ne {w : Nat} (x y : BitVec w) (hy : y ≠ 0#w) : BitVec.smtSDiv x y = x.sdiv y := by
+  have hny : -y ≠ 0#w := by
+    intro h
+    apply hy
+    have := congrArg (fun z => -z) h
+    simpa using this
+  unfold BitVec.smtSDiv BitVec.sdiv
+  have e1 : ∀ a : BitVec w, BitVec.smtUDiv a y = BitVec.udiv a y := by intro a; simp [BitVec.smtUDiv, hy]
+  have e2 : ∀ a : BitVec w, BitVec.smtUDiv a (BitVec.neg y) = BitVec.udiv a (BitVec.neg y) := by
+    intro a; simp only [BitVec.smtUDiv]; rw [if_neg]; exact hny
+  cases x.msb <;> cases y.msb <;> simp only [e1, e2]
+
+theorem ofNat_ne_zero {w b : Nat} (hb : b < 2 ^ w) (h0 : b ≠ 0) : BitVec.ofNat w b ≠ 0#w := by
+  intro hc
+  have := congrArg BitVec.toNat hc
+  simp [BitVec.toNat_ofNat, Nat.mod_eq_of_lt hb] at this
+  exact h0 this
+
+theorem signed_ne_zero {w b : Nat} (hw : 0 < w) (hb : b < 2 ^ w) (h0 : b ≠ 0) : signed w b ≠ 0 := by
+  rw [signed_eq_toInt w b hw hb]
+  intro h
+  have : BitVec.ofNat w b = 0#w := BitVec.eq_of_toInt_eq (by simpa using h)
+  exact ofNat_ne_zero hb h0 this
+
+/-- SMT-LIB `bvsdiv` (for a non-zero divisor; claripy raises on zero) -/
+theorem sdiv_spec (w a b : Nat) (hw : 0 < w) (ha : a < 2 ^ w) (hb : b < 2 ^ w) (h0 : b ≠ 0) :
+    sdiv w a b = .ok (BitVec.smtSDiv (BitVec.ofNat w a) (BitVec.ofNat w b)).toNat := by
+  have hs := signed_ne_zero hw hb h0
+  simp only [sdiv, hs, if_false, mask_eq]
+  congr 2
+  rw [smtSDiv_eq_sdiv_of_ne _ _ (ofNat_ne_zero hb h0), sdivCore_eq_tdiv _ _ hs,
+    signed_eq_toInt w a hw ha, signed_eq_toInt w b hw hb]
+  apply BitVec.eq_of_toInt_eq
+  rw [BitVec.toInt_ofInt, BitVec.toInt_sdiv]
+
+/-- claripy `SMod` is SMT-LIB `bvsrem` (sign follows the dividend) -/
+theorem smod_spec (w a b : Nat) (hw : 0 < w) (ha : a < 2 ^ w) (hb : b < 2 ^ w) (h0 : b ≠ 0) :
+    smod w a b = .ok (BitVec.srem (BitVec.ofNat w a) (BitVec.ofNat w b)).toNat := by
+  have hs := signed_ne_zero hw hb h0
+  simp only [smod, hs, if_false, mask_eq]
+  congr 2
+  rw [sdivCore_eq_tdiv _ _ hs, signed_eq_toInt w a hw ha, signed_eq_toInt w b hw hb]
+  apply BitVec.eq_of_toInt_eq
+  rw [BitVec.toInt_ofInt, BitVec.toInt_srem, Int.tmod_def, Int.mul_comm]
+  rw [← Int.tmod_def, ← BitVec.toInt_srem, BitVec.toInt_bmod_cancel]
+
+
 end Claripy.BV
